@@ -233,6 +233,12 @@ func suiteBudget(o *suiteOut, r *rng, tier string, n int) {
 			// fine: stop ends the run
 		}
 		line0 := runCaseLine(0, false, prog)
+		// a generated program may loop for ever (an `exit` that only leaves an inner loop): probe with a large
+		// safety budget first and leave such programs to the runaway cases
+		if _, _, probe := runProgram(2000000, false, []byte(prog)); probe == "limit" {
+			o.count("programs skipped (do not end within 2,000,000 operations)")
+			continue
+		}
 		res0, intp0, class0 := runProgram(0, false, []byte(prog))
 		if strings.HasPrefix(class0, "panic") {
 			o.fail("C01", "no panic", line0, "result or error", res0)
@@ -333,6 +339,37 @@ func suiteBudget(o *suiteOut, r *rng, tier string, n int) {
 	}
 	for _, prog := range []string{"", "%", "%!", "%!\n", "%%!", " %!"} {
 		p.run(1000, true, prog)
+	}
+	// histories of calls on one interpreter: once passed, the check is not repeated; a failed check stays armed;
+	// an eexec section inside a checked file is not checked
+	for hi, h := range [][]string{
+		{"%!PS\n1 2", "3 4 mul", "xyz"}, {"xyz", "%!PS\n1", "2"}, {"%!", "", "5"}, {"", "%!PS\n7", "8 9"}, {"%", "%!\n1", "(a) 1 add", "2"},
+		{"%!PS\ncurrentfile eexec 00000000", "1"}, {"7 8", "%!\n9"},
+	} {
+		intp := postscript.NewInterpreter()
+		intp.CheckStart = true
+		intp.MaxOps = 1000
+		passed := false
+		var trace []string
+		for ci, part := range h {
+			before := intp.NumOps
+			err := safeErr(func() error { return intp.ExecuteString(part) })
+			cl := errClass(err)
+			trace = append(trace, cl)
+			line := fmt.Sprintf("hist startcheck %d %d", hi, ci)
+			if !passed && !strings.HasPrefix(part, "%!") {
+				if cl != "nops" || intp.NumOps != before {
+					o.fail("C11", "input not starting with %! is rejected before anything is executed (call "+fmt.Sprint(ci)+" of a history)", line+" "+hx([]byte(part)), "nops, nothing executed", cl)
+				}
+			} else {
+				if cl == "nops" {
+					o.fail("C11", "once passed, the start check is not repeated on later calls", line+" "+hx([]byte(part)), "executed", cl)
+				}
+				passed = true
+			}
+			o.emit(line, "skip", true)
+		}
+		o.count("start-check histories")
 	}
 	o.notes = append(o.notes, "every budget N in 1..ops(P)+2 for short programs (sampled cut points for long ones), runaway recursion shapes under six budgets, start-check prefixes; direct oracles: state under budget N >= ops equals the unbudgeted state, limit error and NumOps <= N+1 otherwise, stack and dictionary stack caps")
 	os.Remove(p.cur)
